@@ -277,7 +277,7 @@
                     starts-with($text, 'FROM') or
                     starts-with($text, 'HEADING') or
                     starts-with($text, 'INDENT') or
-                    starts-with($text, 'ITEMS') or
+                    starts-with($text, 'ITEM') or
                     starts-with($text, 'LEVEL') or
                     starts-with($text, 'LIST') or
                     starts-with($text, 'LONGTITLE') or
